@@ -80,6 +80,8 @@ def sort_case(draw, tier, max_records=60, force_all_ref=None):
         "final_newline": True if comp else draw(st.sampled_from([True, True, False])),
         "outind": draw(st.booleans()),
         "via": draw(st.sampled_from(["api", "api", "cli"])),
+        # the pipeline of the documentation: tags come from a real `gaftools order_gfa` run on the same graph
+        "tag_with_order_gfa": draw(st.integers(0, 4)) == 0,
     }
 
 
@@ -100,6 +102,38 @@ def expected_tags(nodes, line):
     orients = {o for o, n in steps if nodes[n]["BO"] != -1 and nodes[n]["NO"] == 0}
     iv = 1 if len(orients) == 2 else 0
     return ["bo:i:%d" % bo, "sn:Z:%s" % (sn if sn is not None else "unknown"), "iv:i:%d" % iv], side
+
+
+def order_gfa_tagged(case):
+    """The graph of the case re-tagged by order_gfa itself (all chain-shaped chromosomes, complete output), and the
+    records whose nodes all received tags. Returns (gfa text, lines) or None when order_gfa orders nothing."""
+    from vf import ordergfa
+    from vf.props import c06
+
+    plain = "\n".join("\t".join(x for x in l.split("\t") if not x.startswith(("BO:i:", "NO:i:"))) for l in case["gfa"].split("\n"))
+    nodes, links = models.nodes_from_gfa_text(plain)
+    named = c06.name_components(nodes, links)
+    if not named:
+        return None
+    good = []
+    for nm, comp in sorted(named.items()):
+        dec = models.chain_decompose(nodes, links, comp)
+        if dec["shape"] == "single" or (dec["shape"] == "chain" and dec["oriented"] and dec["monotone"] and len(dec["scaffold_sn"]) == 1):
+            good.append(nm)
+    if not good:
+        return None
+    with core.workdir() as d:
+        res, files = ordergfa.run_order(d, plain, ",".join(good), False, with_sequence=False)
+    if res[0] != "ok":
+        raise core.Violation("order_gfa failed on the graph to be used by sort: %s" % (res,))
+    text = [v for k, v in files.items() if k.endswith("-complete.gfa")]
+    if not text:
+        return None
+    tagged = {l.split("\t")[1] for l in text[0].split("\n") if l.startswith("S\t")}
+    lines = [l for l in case["gaf"] if all(n in tagged for _, n in models.parse_path(l.split("\t")[5]))]
+    if not lines:
+        return None
+    return text[0], lines
 
 
 def run_sort(case, d):
@@ -161,6 +195,12 @@ def classes_of(case, nodes, exp):
 
 
 def run_case(case):
+    pipeline = False
+    if case.get("tag_with_order_gfa"):
+        r = order_gfa_tagged(case)
+        if r is not None:
+            case = dict(case, gfa=r[0], gaf=r[1], bgzf=None)
+            pipeline = True
     nodes = c08.parse_tagged_gfa(case["gfa"])
     lines = case["gaf"]
     with core.workdir() as d:
@@ -178,7 +218,7 @@ def run_case(case):
         extra = list((got - want).elements())[:2]
         raise core.Violation("output is not the input records plus bo/sn/iv: expected-but-missing %r, unexpected %r"
                              % (missing, extra))
-    cl = classes_of(case, nodes, exp)
+    cl = classes_of(case, nodes, exp) + (["graph_tagged_by_order_gfa"] if pipeline else [])
     if case.get("via") == "cli" and not case["bgzip_out"] and len(lines) <= 25:
         # the documented default: without --outgaf the sorted records go to standard output
         with core.workdir() as d:
